@@ -162,16 +162,31 @@ def check_merge(ctx, items):
 
 @st.composite
 def cli_case(draw):
-    existing = draw(st.lists(st.tuples(st.sampled_from(sorted(V.PREFIXES)), V.opt_year(), V.safe_holder()), max_size=3))
-    new_holders = draw(st.lists(V.safe_holder(), min_size=1, max_size=2, unique=True))
-    if existing and draw(st.booleans()):
-        new_holders[0] = existing[0][2]
+    pool = draw(st.lists(V.safe_holder(), min_size=1, max_size=2, unique=True))
+    existing = draw(st.lists(st.tuples(st.sampled_from(sorted(V.PREFIXES)), V.opt_year(), st.sampled_from(pool)), max_size=4))
+    mode = draw(st.sampled_from(["new", "new", "same-holder", "repeat-line", "licence-only"]))
     years = draw(st.lists(st.integers(1980, 2030).map(str), max_size=3))
     exclude = draw(st.booleans()) if not years else False
     prefix = draw(st.one_of(st.none(), st.sampled_from(sorted(V.PREFIXES))))
-    merge = draw(st.booleans())
+    new_holders = draw(st.lists(V.safe_holder(), min_size=1, max_size=2, unique=True))
+    if existing and mode == "same-holder":
+        new_holders[0] = existing[0][2]
+    elif existing and mode == "repeat-line":
+        # the run states nothing new: same prefix, year and holder as an existing line
+        p0, y0, h0 = existing[0]
+        new_holders, prefix = [h0], p0
+        if y0 and "-" not in y0:
+            years, exclude = [y0], False
+        elif y0:
+            years, exclude = [y0[:4], y0[-4:]], False
+            existing[0] = (p0, f"{y0[:4]} - {y0[-4:]}", h0)
+        else:
+            years, exclude = [], True
+    elif mode == "licence-only":
+        new_holders = []
+    merge = draw(st.booleans()) if mode in ("new", "same-holder") else True
     style = draw(st.sampled_from(["python", "c", "html", "cpp"]))
-    return {"existing": existing, "holders": new_holders, "years": years, "exclude_year": exclude, "prefix": prefix, "merge": merge, "style": style}
+    return {"existing": existing, "holders": new_holders, "years": years, "exclude_year": exclude, "prefix": prefix, "merge": merge, "style": style, "mode": mode}
 
 
 def check_cli(ctx, c):
@@ -193,6 +208,8 @@ def check_cli(ctx, c):
         args = ["annotate"]
         for h in c["holders"]:
             args += ["--copyright", h]
+        if not c["holders"]:
+            args += ["--license", "ISC"]
         for y in c["years"]:
             args += ["--year", y]
         if c["exclude_year"]:
@@ -225,7 +242,7 @@ def check_cli(ctx, c):
         for _p, _y, h in c["existing"] + new_items:
             per_holder[h] = per_holder.get(h, 0) + 1
         ctx.count(c, nontrivial=bool((yr and pfx != "spdx") or (c["merge"] and any(v >= 2 for v in per_holder.values()))),
-                  labels=[f"cli:merge={c['merge']}", f"cli:style={c['style']}", f"cli:years={len(c['years'])}"])
+                  labels=[f"cli:merge={c['merge']}", f"cli:style={c['style']}", f"cli:years={len(c['years'])}", f"cli:mode={c.get('mode')}"])
         if c["merge"] and ex_lines:
             # (without an existing header there is nothing to merge with)
             judge_merged(ctx, c, got, merge_expect(c["existing"] + new_items), "annotate --merge-copyrights + lint")
